@@ -64,9 +64,9 @@ namespace c04
 
   // ------------------------------------------------------------------------------------------------ alphabets
   // value sets: all values are exactly representable in float
-  enum { VS_DYADIC = 0, VS_ZEROS = 1, VS_SPREAD = 2, VS_ROUND = 3, VS_ROT = 4, VS_SIGN0 = 8 /* + mask (< 256) */, VS_PERM0 = 1000 /* + 256*perm + mask */ };
+  enum { VS_DYADIC = 0, VS_ZEROS = 1, VS_SPREAD = 2, VS_ROUND = 3, VS_ROT = 4, VS_NEG = 5, VS_POS = 6, VS_EXTREME = 7 /* filled per data type by the harness */, VS_SIGN0 = 8 /* + mask (< 256) */, VS_PERM0 = 1000 /* + 256*perm + mask */ };
 
-  inline bool vs_exact(int vs) { return vs == VS_DYADIC || vs == VS_ZEROS || vs == VS_ROT || vs >= VS_SIGN0; }
+  inline bool vs_exact(int vs) { return vs == VS_DYADIC || vs == VS_ZEROS || vs == VS_ROT || vs == VS_NEG || vs == VS_POS || vs >= VS_SIGN0; }
 
   /// k-th permutation (factorial number system) of 0..n-1
   inline std::vector<int> nth_perm(int n, int k)
@@ -93,6 +93,9 @@ namespace c04
     case VS_SPREAD: return "spread2^26";
     case VS_ROUND: return "rounding";
     case VS_ROT: return "dyadic-rotated";
+    case VS_NEG: return "all-negative";
+    case VS_POS: return "all-positive";
+    case VS_EXTREME: return "extreme magnitudes (max/2, min normal, denormals, both signs)";
     default:
       if(vs >= VS_PERM0) return "rank-perm" + std::to_string((vs - VS_PERM0) / 256) + "/signmask" + std::to_string((vs - VS_PERM0) % 256);
       return "signmask" + std::to_string(vs - VS_SIGN0);
@@ -123,6 +126,11 @@ namespace c04
       return sgn * mag;
     case VS_ROT:
       return -sgn * mag;
+    case VS_NEG:
+      return -mag;
+    case VS_POS:
+    case VS_EXTREME:
+      return mag;
     case VS_ZEROS:
       return ((i + 2 * Index(p)) % 3 == 0) ? LD(0) : sgn * mag;
     case VS_SPREAD:
